@@ -104,6 +104,25 @@ def parquet_rows(b: bytes) -> List[int]:
     return [r["id"] for r in pq.read_table(io.BytesIO(b)).to_pylist()]
 
 
+META_RE = __import__("re").compile(r"^v(\d+)(?:-[0-9a-f]{8})?\.metadata\.json$")
+
+
+def read_list_any(b: bytes) -> List[str]:
+    """Manifest paths of a manifest list in either format (Avro container, or the legacy JSON object)."""
+    try:
+        return [r["manifest_path"] for r in avro_records(b)]
+    except Exception:
+        return [r["manifest_path"] for r in json.loads(b.decode("utf-8"))["manifests"]]
+
+
+def read_manifest_any(b: bytes) -> List[Tuple[str, Optional[str]]]:
+    """(data file path, recorded checksum) per entry."""
+    try:
+        return [(r["data_file"]["file_path"], r["data_file"].get("checksum")) for r in avro_records(b)]
+    except Exception:
+        return [(r["file_path"], r.get("checksum")) for r in json.loads(b.decode("utf-8"))["files"]]
+
+
 class Inventory:
     """The undamaged table, read without importing datashard."""
 
@@ -118,31 +137,52 @@ class Inventory:
                     continue
                 with open(full, "rb") as fh:
                     self.files[rel] = fh.read()
-        hint = self.files[HINT_PATH].decode().strip()
-        self.meta = "metadata/" + hint
+        versions = sorted((int(META_RE.match(os.path.basename(p)).group(1)), p) for p in self.files
+                          if os.path.dirname(p) == "metadata" and META_RE.match(os.path.basename(p)))
+        named = None
+        try:
+            txt = self.files[HINT_PATH].decode("utf-8").strip()
+            if META_RE.match(txt) and ("metadata/" + txt) in self.files:
+                named = "metadata/" + txt
+        except Exception:
+            pass
+        self.meta = named or versions[-1][1]
+        self.other_metas = [p for _v, p in versions if p != self.meta]
         md = json.loads(self.files[self.meta].decode())
-        cur = [s for s in md["snapshots"] if s["snapshot_id"] == md["current_snapshot_id"]][0]
-        self.list = cur["manifest_list"].lstrip("/")
-        self.other_lists = [s["manifest_list"].lstrip("/") for s in md["snapshots"] if s is not cur]
-        self.other_metas = sorted(p for p in self.files if p.endswith(".metadata.json") and p != self.meta)
-        self.manifests = [r["manifest_path"].lstrip("/") for r in avro_records(self.files[self.list])]
+        cur_id = md["current_snapshot_id"]
+        cur = [s for s in md["snapshots"] if s["snapshot_id"] == cur_id]
+        self.broken = bool(cur_id is not None and cur_id != -1 and not cur)      # dangling id: every API must raise
+        self.list: Optional[str] = cur[0]["manifest_list"].lstrip("/") if cur else None
+        self.other_lists = [s["manifest_list"].lstrip("/") for s in md["snapshots"] if not cur or s is not cur[0]]
+        self.manifests: List[str] = []
         self.data: List[str] = []
         self.file_rows: Dict[str, List[int]] = {}
+        self.checksummed: Dict[str, bool] = {}      # does the entry the reader keeps for this path record a checksum?
         self.rows: List[int] = []
-        for m in self.manifests:
-            for rec in avro_records(self.files[m]):
-                p = rec["data_file"]["file_path"].lstrip("/")
-                if p in self.data:
+        if self.list is not None:
+            for m in read_list_any(self.files[self.list]):
+                m = m.lstrip("/")
+                if not m:
                     continue
-                self.data.append(p)
-                self.file_rows[p] = parquet_rows(self.files[p])
-                self.rows += self.file_rows[p]
-        self.roles: Dict[str, str] = {self.meta: "meta", self.list: "list"}
+                if m not in self.manifests:
+                    self.manifests.append(m)
+                for p, csum in read_manifest_any(self.files[m]):
+                    p = p.lstrip("/")
+                    if p in self.data:
+                        continue
+                    self.data.append(p)
+                    self.checksummed[p] = bool(csum)
+                    self.file_rows[p] = parquet_rows(self.files[p])
+                    self.rows += self.file_rows[p]
+        self.roles: Dict[str, str] = {self.meta: "meta"}
+        if self.list is not None:
+            self.roles[self.list] = "list"
         self.roles.update({m: "manifest" for m in self.manifests})
         self.roles.update({d: "data" for d in self.data})
 
     def reachable(self) -> List[Tuple[str, str]]:
-        return [(self.meta, "meta"), (self.list, "list")] + [(m, "manifest") for m in self.manifests] + [(d, "data") for d in self.data]
+        return ([(self.meta, "meta")] + ([(self.list, "list")] if self.list else [])
+                + [(m, "manifest") for m in self.manifests] + [(d, "data") for d in self.data])
 
     def siblings(self, path: str) -> List[str]:
         role = self.roles[path]
@@ -152,6 +192,100 @@ class Inventory:
             return self.other_lists[-1:]
         pool = self.manifests if role == "manifest" else self.data
         return [p for p in pool if p != path][:1]
+
+
+# ====================================================================================== table variants
+def _rewrite(path: str, rel: str, content: bytes) -> None:
+    with open(os.path.join(path, rel), "wb") as f:
+        f.write(content)
+
+
+def _avro_rewrite(b: bytes, edit) -> bytes:
+    import fastavro
+    rd = fastavro.reader(io.BytesIO(b))
+    schema = rd.writer_schema
+    recs = edit(list(rd))
+    out = io.BytesIO()
+    fastavro.writer(out, schema, recs)
+    return out.getvalue()
+
+
+def variant_json(path: str) -> None:
+    """The legacy layout: manifest list and manifests as JSON objects (read through the fallback)."""
+    inv = Inventory(path)
+    lst = avro_records(inv.files[inv.list])
+    keys = LIST_REQ
+    _rewrite(path, inv.list, json.dumps({"manifests": [{k: r[k] for k in keys} for r in lst]}).encode())
+    for m in inv.manifests:
+        files = []
+        for r in avro_records(inv.files[m]):
+            d = r["data_file"]
+            files.append({"file_path": d["file_path"], "file_format": d["file_format"], "partition_values": d["partition"]["values"],
+                          "record_count": d["record_count"], "file_size_in_bytes": d["file_size_in_bytes"], "checksum": d.get("checksum")})
+        _rewrite(path, m, json.dumps({"files": files}).encode())
+
+
+def variant_dup(path: str) -> None:
+    """An entry with an empty manifest path, and one data file listed by two manifests under two spellings."""
+    inv = Inventory(path)
+
+    def add_empty(recs):
+        e = dict(recs[0])
+        e["manifest_path"] = ""
+        return recs[:1] + [e] + recs[1:]
+    _rewrite(path, inv.list, _avro_rewrite(inv.files[inv.list], add_empty))
+    first = avro_records(inv.files[inv.manifests[0]])[0]
+
+    def add_dup(recs):
+        e = dict(first)
+        e["data_file"] = dict(first["data_file"])
+        e["data_file"]["file_path"] = first["data_file"]["file_path"].lstrip("/")
+        e["data_file"]["checksum"] = None
+        return [e] + recs
+    _rewrite(path, inv.manifests[-1], _avro_rewrite(inv.files[inv.manifests[-1]], add_dup))
+
+
+def variant_nosum(path: str) -> None:
+    """Data files registered without a checksum (append_files of a caller-built DataFile)."""
+    inv = Inventory(path)
+
+    def strip(recs):
+        for r in recs:
+            r["data_file"]["checksum"] = None
+        return recs
+    _rewrite(path, inv.manifests[0], _avro_rewrite(inv.files[inv.manifests[0]], strip))
+
+
+def _variant_cur(value):
+    def f(path: str) -> None:
+        inv = Inventory(path)
+        md = json.loads(inv.files[inv.meta].decode())
+        md["current_snapshot_id"] = value
+        _rewrite(path, inv.meta, json.dumps(md, indent=2).encode())
+    return f
+
+
+def _variant_hint(content: Optional[bytes]):
+    def f(path: str) -> None:
+        if content is None:
+            os.remove(os.path.join(path, HINT_PATH))
+        else:
+            _rewrite(path, HINT_PATH, content)
+    return f
+
+
+# name -> (shape, transform, full damage matrix?)
+VARIANTS: Dict[str, Tuple[List[List[int]], Any, bool]] = {
+    "json": ([[2, 1], [2]], variant_json, True),
+    "dup": ([[2, 1], [2]], variant_dup, True),
+    "nosum": ([[2, 1], [2]], variant_nosum, True),
+    "dangling": ([[2], [1]], _variant_cur(424242), False),
+    "cur-minus1": ([[2], [1]], _variant_cur(-1), False),
+    "cur-null": ([[2], [1]], _variant_cur(None), False),
+    "no-pointer": ([[2], [1]], _variant_hint(None), False),
+    "bad-pointer": ([[2], [1]], _variant_hint(b"\xff\xfenot a pointer"), False),
+    "legacy-pointer-missing-file": ([[2], [1]], _variant_hint(b"7"), False),
+}
 
 
 # ====================================================================================== instrumentation
@@ -676,9 +810,19 @@ def compare(mc: ModelCtx, api: str, impl: Dict[str, Any], trace: List[Tuple[str,
     return None
 
 
-def run_table(ctx, path: str, shape: List[List[int]], tag: str, file_limit: Optional[int] = None) -> None:
+def make_table(path: str, shape: List[List[int]], variant: Optional[str]) -> "Inventory":
     build_table(path, shape)
-    inv = Inventory(path)
+    if variant:
+        VARIANTS[variant][1](path)
+    return Inventory(path)
+
+
+REDUCED = ("delete", "random", "braces", "swap-sibling", "truncate@1")
+
+
+def run_table(ctx, path: str, shape: List[List[int]], tag: str, file_limit: Optional[int] = None,
+              variant: Optional[str] = None, reduced: bool = False) -> None:
+    inv = make_table(path, shape, variant)
     mc = ModelCtx(inv)
     rng = ctx.rng
     healthy_rows = inv.rows
@@ -694,6 +838,8 @@ def run_table(ctx, path: str, shape: List[List[int]], tag: str, file_limit: Opti
     targets_dmgs: List[Tuple[str, str, Dict[str, Any]]] = [("", "none", {"name": "healthy", "class": "none", "writes": {}})]
     for p, role in targets:
         for d in damages_for(inv, p, ctx.tier, rng):
+            if reduced and not (d["name"] in REDUCED or d["class"] == "transient" or d.get("structural")):
+                continue
             targets_dmgs.append((p, role, d))
     for p, role, dmg in targets_dmgs:
         apply_damage(inv, dmg)
@@ -702,7 +848,8 @@ def run_table(ctx, path: str, shape: List[List[int]], tag: str, file_limit: Opti
             new_bytes = dmg["writes"].get(p) if p else None
             in_scope = (dmg["class"] == "absent" or dmg["class"] == "transient"
                         or (dmg["class"] in ("truncate", "replace", "flip") and unparseable(role, new_bytes)))
-            data_changed = role == "data" and dmg["class"] in ("truncate", "replace", "flip", "swap") and new_bytes != inv.files[p]
+            data_changed = (role == "data" and dmg["class"] in ("truncate", "replace", "flip", "swap")
+                            and new_bytes != inv.files[p] and inv.checksummed[p])
             for api in APIS:
                 for verify in ((True, False) if api != "RowCount" else (True,)):
                     t = open_handle(path)
@@ -716,26 +863,39 @@ def run_table(ctx, path: str, shape: List[List[int]], tag: str, file_limit: Opti
                     ck = f"{role}:{dmg['class']}"
                     stats[ck] = stats.get(ck, 0) + 1
                     ctx.count(1, (tag, p, dmg["name"], api, verify))
-                    case = {"table": tag, "shape": shape, "role": role, "index": [q for q, r_ in inv.reachable() if r_ == role].index(p) if p else 0,
+                    case = {"table": tag, "shape": shape, "variant": variant, "role": role, "index": [q for q, r_ in inv.reachable() if r_ == role].index(p) if p else 0,
                             "damage": dmg["name"], "api": api, "verify": verify}
                     # ---------------- implementation-only oracle
                     answer_ok = impl["ok"] and ((api == "RowCount" and impl["count"] == len(healthy_rows))
                                                 or (api != "RowCount" and impl["rows"] == healthy_rows))
+                    if inv.broken:
+                        answer_ok = not impl["ok"]          # the undamaged answer of a dangling table is: raises
                     if not p:
-                        if not answer_ok:
+                        if inv.broken:
+                            if impl["ok"]:
+                                ctx.violation(f"dangling-snapshot-id-not-raised:{api}",
+                                              f"current_snapshot_id matches no snapshot, {api} returned {impl}", dict(case, got=impl))
+                        elif not answer_ok:
                             ctx.violation(f"healthy-table-misread:{api}", f"undamaged table: {api} gave {impl}", dict(case, got=impl))
                     elif data_changed and verify and api != "RowCount":
                         if impl["ok"] or impl["kind"] != "ECorrupt":
                             ctx.violation(f"checksum-not-detected:{dmg['class']}:{api}",
                                           f"data file bytes changed ({dmg['name']}), verification on, {api} "
                                           f"{'returned ' + str(impl.get('rows')) if impl['ok'] else 'raised ' + impl['exc']} instead of CorruptDataError",
-                                          dict(case, got=impl))
+                                          dict(case, got=impl, expect="corrupt"))
+                    elif role == "meta" and dmg["class"] == "absent" and impl["ok"]:
+                        # with or without a pointer: the newest metadata file is gone and the previous version is served
+                        ctx.violation(KNOWN_KEY + f":{api}", f"current metadata file deleted: {api}(verify={verify}) returned "
+                                      f"{impl.get('rows', impl.get('count'))} instead of raising (undamaged answer has {len(healthy_rows)} rows)",
+                                      dict(case, got=impl))
+                    elif in_scope and touched and dmg["class"] == "transient" and answer_ok:
+                        # the failing call was retried through the other reader and the retry read everything: complete
+                        # rows, nothing partial (only possible for legacy JSON manifests; Avro files fail the JSON retry)
+                        retried = ctx.stats.setdefault("transient_swallowed_retry_read_everything", {})
+                        retried[f"{role}:{dmg['name']}"] = retried.get(f"{role}:{dmg['name']}", 0) + 1
                     elif in_scope and touched:
                         if impl["ok"]:
-                            if role == "meta" and dmg["class"] == "absent":
-                                key = KNOWN_KEY + f":{api}"
-                            else:
-                                key = f"fail-open:{role}:{dmg['class']}:{api}"
+                            key = f"fail-open:{role}:{dmg['class']}:{api}"
                             what = (f"{role} file {dmg['name']}: {api}(verify={verify}) returned "
                                     f"{impl.get('rows', impl.get('count'))} instead of raising (undamaged answer has {len(healthy_rows)} rows)")
                             ctx.violation(key, what, dict(case, got=impl))
@@ -749,7 +909,7 @@ def run_table(ctx, path: str, shape: List[List[int]], tag: str, file_limit: Opti
                     cases.append({"case": case, "impl": impl, "trace": list(ins.trace), "expr": model_expr(mc, dmg, recovered, api, verify)})
         finally:
             undo_damage(inv, dmg)
-    ctx.sample({"table": tag, "shape": shape, "files": {r: len([1 for _p, r2 in inv.reachable() if r2 == r]) for r in ("meta", "list", "manifest", "data")},
+    ctx.sample({"table": tag, "shape": shape, "variant": variant, "files": {r: len([1 for _p, r2 in inv.reachable() if r2 == r]) for r in ("meta", "list", "manifest", "data")},
                 "example_case": cases[len(cases) // 2]["case"], "impl": cases[len(cases) // 2]["impl"]})
     # ---------------- hypothesis json_not_avro, measured on every byte string in play
     both = 0
@@ -878,25 +1038,29 @@ def run(ctx) -> None:
             run_table(ctx, os.path.join(ctx.scratch, f"t{i}"), shape, f"t{i}")
     except RuntimeError as e:
         ctx.proof_problems.append("model evaluation failed: " + str(e)[:800])
+    try:
+        for name, (shape, _tr, full) in VARIANTS.items():
+            run_table(ctx, os.path.join(ctx.scratch, f"v-{name}"), shape, f"variant:{name}", variant=name,
+                      reduced=(ctx.tier == "quick" or not full), file_limit=None if full else 2)
+    except RuntimeError as e:
+        ctx.proof_problems.append("model evaluation failed (variants): " + str(e)[:800])
     oracle_filtered(ctx, os.path.join(ctx.scratch, "tf"))
     oracle_fresh_handle(ctx, os.path.join(ctx.scratch, "th"))
+    shrink(ctx)
 
 
-def replay(ctx, payload) -> int:
-    logging.disable(logging.CRITICAL)
-    case = payload.get("case", {})
-    if "shape" not in case or "damage" not in case:
-        print("replay: payload kind not replayable directly; re-run ./bin/check C14 thorough")
-        return 2
-    path = os.path.join(ctx.scratch, "replay")
-    build_table(path, case["shape"])
-    inv = Inventory(path)
+def execute_case(case: Dict[str, Any], path: str) -> Optional[Tuple[Dict[str, Any], "Inventory", str]]:
+    """Rebuild the table of a recorded case, apply its damage, run its API call. None when not applicable."""
+    inv = make_table(path, case["shape"], case.get("variant"))
+    if case["damage"] == "healthy":
+        return run_api(open_handle(path), case["api"], case["verify"]), inv, "(undamaged)"
     files = [q for q, r in inv.reachable() if r == case["role"]]
+    if not files:
+        return None
     p = files[min(case.get("index", 0), len(files) - 1)]
     dmgs = [d for d in damages_for(inv, p, "thorough", random.Random(0)) if d["name"] == case["damage"]]
     if not dmgs:
-        print(f"replay: damage {case['damage']} not applicable to the rebuilt table")
-        return 2
+        return None
     dmg = dmgs[0]
     apply_damage(inv, dmg)
     try:
@@ -905,16 +1069,62 @@ def replay(ctx, payload) -> int:
             try:
                 impl = run_api(load_table(path), case["api"], case["verify"])
             except Exception as e:  # noqa: BLE001
-                impl = {"ok": False, "exc": type(e).__name__}
+                impl = {"ok": False, "exc": type(e).__name__, "kind": exc_kind(e)}
         else:
             t = open_handle(path)
             ins = Instr(t, dmg.get("fault"))
-            impl = run_api(t, case["api"], case["verify"], {"id": (">=", 0)} if case.get("filter") else None)
-            ins.restore()
+            try:
+                impl = run_api(t, case["api"], case["verify"], {"id": (">=", 0)} if case.get("filter") else None)
+            finally:
+                ins.restore()
     finally:
         undo_damage(inv, dmg)
-    print(f"replay: {case['role']} file {p} {dmg['name']} -> {case['api']}(verify={case['verify']}): "
-          + (f"RETURNED {impl.get('rows', impl.get('count'))} (undamaged: {inv.rows})" if impl["ok"] else f"raised {impl['exc']}"))
-    still = impl["ok"]
+    return impl, inv, f"{case['role']} file {p} {dmg['name']}"
+
+
+def case_fails(case: Dict[str, Any], impl: Dict[str, Any], inv: "Inventory") -> bool:
+    if case["damage"] == "healthy":
+        return impl["ok"] if inv.broken else not impl["ok"]
+    if case.get("expect") == "corrupt":
+        return impl["ok"] or impl.get("kind") != "ECorrupt"
+    return impl["ok"]
+
+
+def shrink(ctx) -> None:
+    """Re-run each distinct unlisted violation on smaller tables; keep the smallest that still fails."""
+    seen = set()
+    size = lambda sh: (sum(len(f) for f in sh), sum(sum(f) for f in sh))
+    for v in ctx.violations:
+        case = v["replay"]
+        if v["key"] in seen or v["key"].startswith(KNOWN_KEY) or not isinstance(case, dict) or "damage" not in case:
+            continue
+        seen.add(v["key"])
+        for shape in ([[1]], [[1], [1]], [[1, 1]], [[2], [1]]):
+            if size(shape) >= size(case["shape"]):
+                continue
+            c2 = dict(case, shape=shape, index=0)
+            try:
+                r = execute_case(c2, os.path.join(ctx.scratch, "shrink"))
+            except Exception:  # noqa: BLE001
+                r = None
+            if r is not None and case_fails(c2, r[0], r[1]):
+                v["replay"] = dict(c2, shrunk_from=case["shape"], got=r[0])
+                break
+
+
+def replay(ctx, payload) -> int:
+    logging.disable(logging.CRITICAL)
+    case = payload.get("case", {})
+    if "shape" not in case or "damage" not in case:
+        print("replay: payload kind not replayable directly; re-run ./bin/check C14 thorough")
+        return 2
+    r = execute_case(case, os.path.join(ctx.scratch, "replay"))
+    if r is None:
+        print(f"replay: damage {case['damage']} on {case['role']} not applicable to the rebuilt table")
+        return 2
+    impl, inv, what = r
+    print(f"replay: {what} -> {case['api']}(verify={case['verify']}): "
+          + (f"RETURNED {impl.get('rows', impl.get('count'))} (undamaged: {'raises' if inv.broken else inv.rows})" if impl["ok"] else f"raised {impl['exc']}"))
+    still = case_fails(case, impl, inv)
     print("replay:", "STILL FAILS" if still else "passes now")
     return 1 if still else 0
